@@ -62,8 +62,7 @@ pub fn build_app(state: LogState) -> App<LogState> {
 }
 
 pub fn free_port() -> u16 {
-    let l = TcpListener::bind("127.0.0.1:0").unwrap();
-    l.local_addr().unwrap().port()
+    hvcommon::net::free_port("127.0.0.1")
 }
 
 pub struct TokioLab {
